@@ -275,14 +275,21 @@ def _steadystate_direct(A, weight, **kw):
 
 
 def _steadystate_eigen(L, **kw):
-    val, vec = (L.dag() @ L).eigenstates(
+    M = L.dag() @ L
+    # The sparse (ARPACK) solver only searches the range of the matrix it is
+    # given: a steady state which is an isolated null vector of ``M`` (a zero
+    # row and column, e.g. a dark basis state) is never found.  Shifting the
+    # spectrum keeps the eigenvectors and makes the range the whole space.
+    M = M + abs(M.tr()) / M.shape[0]
+    val, vec = M.eigenstates(
         eigvals=1,
         sort="low",
         # v4's implementation only uses sparse eigen solver
         sparse=kw.pop("sparse", True)
     )
     rho = vector_to_operator(vec[0])
-    return rho / rho.tr()
+    rho = rho / rho.tr()
+    return (rho + rho.dag()) / 2
 
 
 def _steadystate_svd(L, **kw):
